@@ -81,6 +81,7 @@ type caseReq struct {
 	Daemon    string `json:"daemon"`
 	Cluster   string `json:"cluster"`
 	Peerfail  string `json:"peerfail"`
+	Client    string `json:"client"`
 }
 
 // caseIn: cases with the same Grp run on one rig in file order; Reset says
@@ -1188,6 +1189,31 @@ func (r *rig) spell(fixed, enc string, withSep bool) string {
 	return b.String()
 }
 
+// pausedReader delivers b[:cut], sleeps once, then delivers the rest.
+type pausedReader struct {
+	b      []byte
+	cut    int
+	pause  time.Duration
+	off    int
+	paused bool
+}
+
+func (p *pausedReader) Read(out []byte) (int, error) {
+	if p.off >= len(p.b) {
+		return 0, io.EOF
+	}
+	lim := len(p.b)
+	if p.off < p.cut {
+		lim = p.cut
+	} else if !p.paused {
+		p.paused = true
+		time.Sleep(p.pause)
+	}
+	n := copy(out, p.b[p.off:lim])
+	p.off += n
+	return n, nil
+}
+
 type kv struct{ k, v string }
 
 func (r *rig) encodeQuery(ps []kv) string {
@@ -1380,6 +1406,9 @@ func (r *rig) runOnce(ci caseIn, c concrete) (traceRec, error) {
 		r.d.setMode("reset")
 		defer r.d.setMode("up")
 	}
+	if q.Client == "upload" {
+		end = r.ends["slow"] // the proxy whose read_header_timeout / idle_timeout are 300 ms
+	}
 	r.d.take()
 
 	u, err := url.Parse("http://verif.local" + c.path)
@@ -1398,6 +1427,12 @@ func (r *rig) runOnce(ci caseIn, c concrete) (traceRec, error) {
 	req, err := http.NewRequest(c.method, "http://verif.local/", body)
 	if err != nil {
 		return traceRec{}, err
+	}
+	if q.Client == "upload" && c.body != nil {
+		// the spec's slow upload: first half, a pause of more than 3x read_header_timeout, second half
+		req.Body = io.NopCloser(&pausedReader{b: c.body, cut: len(c.body) / 2, pause: slowDelay})
+		req.ContentLength = int64(len(c.body))
+		req.GetBody = nil
 	}
 	req.URL = u
 	req.Host = "verif.local"
